@@ -20,6 +20,11 @@ import (
 // VerifC15Remote: a delegated phase is realised through exactly one ObjectSetPhase carrying the phase's content; its
 // Available status is trusted only for its current generation; pause is propagated with an optimistic-lock patch.
 func VerifC15Remote() {
+	cluster := verifrt.Bound("clusterScoped", 0) == 1
+	ns := "ns"
+	if cluster {
+		ns = ""
+	}
 	c := verifk8s.NewClient()
 	c.SpecWriteBumpsGeneration = true
 	uncached := verifk8s.NewClient()
@@ -87,10 +92,32 @@ func VerifC15Remote() {
 			reported = []corev1alpha1.ControlledObjectReference{{Kind: "ConfigMap", Name: "o0", Namespace: "ns"}}
 			p.Status.ControllerOf = reported
 		}
-		c.Put(p)
+		if cluster {
+			m := verifk8s.ToMap(p)
+			delete(m["metadata"].(map[string]interface{}), "namespace")
+			cp := &corev1alpha1.ClusterObjectSetPhase{}
+			verifk8s.FromMap(m, cp)
+			c.Put(cp)
+		} else {
+			c.Put(p)
+		}
 	}
-	r := newObjectSetRemotePhaseReconciler(c, uncached, vScheme(), newGenericObjectSetPhase)
-	active, res, err := r.Reconcile(context.Background(), os, ph)
+	// the cluster-scoped twins (ClusterObjectSet adapter, ClusterObjectSetPhase) carry the same content
+	var owner adapters.ObjectSetAccessor = os
+	factory := newGenericObjectSetPhase
+	var cos *adapters.ClusterObjectSetAdapter
+	if cluster {
+		m := verifk8s.ToMap(&os.ObjectSet)
+		delete(m["metadata"].(map[string]interface{}), "namespace")
+		cos = &adapters.ClusterObjectSetAdapter{}
+		verifk8s.FromMap(m, &cos.ClusterObjectSet)
+		owner, factory = cos, newGenericClusterObjectSetPhase
+	}
+	r := newObjectSetRemotePhaseReconciler(c, uncached, vScheme(), factory)
+	active, res, err := r.Reconcile(context.Background(), owner, ph)
+	if cluster {
+		os.Status.RemotePhases = cos.Status.RemotePhases
+	}
 
 	var creates, patches []verifk8s.Call
 	for _, call := range c.Calls {
@@ -108,7 +135,7 @@ func VerifC15Remote() {
 		if len(creates) == 1 {
 			created := &corev1alpha1.ObjectSetPhase{}
 			verifk8s.FromMap(creates[0].Obj, created)
-			verifrt.Assert(created.Name == "me-p" && created.Namespace == "ns", "C15/phase-object-named-after-objectset-and-phase")
+			verifrt.Assert(created.Name == "me-p" && created.Namespace == ns, "C15/phase-object-named-after-objectset-and-phase")
 			verifrt.Assert(created.Spec.Revision == rev, "C15/carries-revision")
 			verifrt.Assert(equality.Semantic.DeepEqual(created.Spec.Previous, os.Spec.Previous), "C15/carries-previous")
 			verifrt.Assert(equality.Semantic.DeepEqual(created.Spec.AvailabilityProbes, os.Spec.AvailabilityProbes), "C15/carries-probes")
